@@ -6,7 +6,7 @@ build(spec, logs)      -> (ciw.Network, simulation kwargs)
 Every distribution handed to ciw is a LogDist wrapper that delegates to a real ciw distribution
 and appends (stream, t, customer id, value) to a log shared across deep copies.
 """
-import random, math, copy
+import random, math, copy, json
 import ciw
 
 INF = float('inf')
@@ -251,6 +251,13 @@ def gen_spec(seed, profile=None):
                                     {'b': 'const', 'p': r.choice([0.0, 0.3, 1.0])}]) if use_blk and r.random() < 0.6 else None)
     if not any_arr:
         arr[classes[0]][0] = rand_time_dist(r, lattice, scale=1.0)
+    if r.random() < P('p_share_objects', 0.15):
+        spec['share_objects'] = True
+        slots = [(c, i) for c in classes for i in range(n)]
+        if len(slots) > 1:
+            (c1, i1), (c2, i2) = r.sample(slots, 2)
+            if arr[c1][i1] is not None: arr[c2][i2] = copy.deepcopy(arr[c1][i1]); any_arr = True
+            srv[c2][i2] = copy.deepcopy(srv[c1][i1])
     spec.update(arrivals=arr, services=srv, batching=bat if use_bat else None, reneging=ren if use_ren else None,
                 baulking=blk if use_blk else None)
     # routing
@@ -453,8 +460,16 @@ def build(spec, logs=None, fault=None):
     rlog = logs.rlog if logs is not None else None
     blog = logs.blog if logs is not None else None
 
+    shared = {}
+
     def wrap(d, stream):
-        base = make_dist(d)
+        if d is not None and spec.get('share_objects') and stream[0] in ('arr', 'srv', 'bat'):
+            # the user passes one distribution object in several slots: each (node, class) stream must still get its own copy
+            key = (stream[0], json.dumps(d, sort_keys=True))
+            if key not in shared: shared[key] = make_dist(d)
+            base = shared[key]
+        else:
+            base = make_dist(d)
         if base is None: return None
         if fault is not None and fault[0] == stream[0]:
             base = FaultDist(base, fault[1], fault[2], fault[3])
@@ -507,6 +522,9 @@ def build(spec, logs=None, fault=None):
                 kw[key] = {c: kw[key][c] for c in sorted(kw[key], reverse=True)}
         if isinstance(kw.get('priority_classes'), dict):
             kw['priority_classes'] = {c: kw['priority_classes'][c] for c in sorted(kw['priority_classes'], reverse=True)}
+        elif isinstance(kw.get('priority_classes'), tuple):
+            m_, o_ = kw['priority_classes']
+            kw['priority_classes'] = ({c: m_[c] for c in sorted(m_, reverse=True)}, o_)
     N = ciw.create_network(**kw)
     return N, sim_kwargs(spec)
 
